@@ -247,14 +247,20 @@ type verifControlBadParam struct {
 	Note    string
 	Default []byte
 	Hidden  string
+	memo    []byte
 }
 
 func (p *verifControlBadParam) ToJSON(encoder *jbtf.Encoder) ([]byte, error) {
+	if p.memo != nil {
+		return p.memo, nil // PERSIST-14: memo never invalidated by FromJSON
+	}
 	schema := verifControlSchema{Name: p.Name, Note: p.Note}
 	if schema.Default != nil {
 		schema.Default = &jbtf.Bytes{Data: p.Default}
 	}
-	return encoder.Marshal(schema)
+	out, err := encoder.Marshal(schema)
+	p.memo = out
+	return out, err
 }
 
 func (p *verifControlBadParam) FromJSON(decoder jbtf.Decoder, body []byte) (err error) {
@@ -653,6 +659,7 @@ func (k *checker) finishControls() {
 		{"PERSIST-10", "control.NewIDBad#unique-id"},
 		{"PERSIST-12", "verifControlBadParam.FromJSON#Name"},
 		{"PERSIST-13", "control.ApplyBad#metadata-whole"},
+		{"PERSIST-14", "verifControlBadParam.FromJSON#invalidates-memo"},
 	}
 	for _, w := range bad {
 		v := ob.Holds
@@ -670,7 +677,7 @@ func (k *checker) finishControls() {
 		}
 		c.R.Control("PERSIST-9", "control:good", "zz_verif_control_c12.go", v, ob.Holds, "a length-delimited payload type must hold")
 	}
-	for _, rule := range []string{"PERSIST-1", "PERSIST-2", "PERSIST-3", "PERSIST-4", "PERSIST-6", "PERSIST-7", "SAVE-1", "SAVE-2", "SAVE-3", "PERSIST-8", "PERSIST-10", "PERSIST-12", "PERSIST-13"} {
+	for _, rule := range []string{"PERSIST-1", "PERSIST-2", "PERSIST-3", "PERSIST-4", "PERSIST-6", "PERSIST-7", "SAVE-1", "SAVE-2", "SAVE-3", "PERSIST-8", "PERSIST-10", "PERSIST-12", "PERSIST-13", "PERSIST-14"} {
 		v := ob.Holds
 		var msgs []string
 		for _, f := range k.ctl.fired[rule] {
